@@ -429,6 +429,14 @@ def gen_gate_goaway(ctx, thorough):
                 c2["gate"] = gate
                 steps = [call(1), c2] + [dict(e) for e in ev] + [{"op": "ungate"}, {"op": "wu", "req": 0, "inc": 200000}, resp(1, es=True), call(3), resp(3, es=True)]
                 out.append({'tag': 'gate-own', 'cfg': {}, 'steps': steps})
+    # the write loop parked at its select with requests piling up in its queue while the connection changes under them
+    for ev in ([{"op": "goaway", "code": 0, "last": 0, "lastreq": 1}], [{"op": "goaway", "code": 0, "last": 0}], [{"op": "srvclose"}], [{"op": "close"}],
+               [{"op": "settings", "pairs": [[3, 1]]}], [{"op": "settings", "pairs": [[3, 0]]}], [{"op": "rst", "req": 1, "code": 7}],
+               [resp(1, es=True), {"op": "goaway", "code": 0, "last": 0, "lastreq": 1}]):
+        c1 = call(1)
+        c1["gate"] = "wl.idle"
+        steps = [c1, call(2), call(3, n=3000, kind='stream'), call(4, n=100)] + [dict(e) for e in ev] + [{"op": "ungate"}, {"op": "wu", "req": 0, "inc": 100000}, call(5)]
+        out.append({'tag': 'gate-idle', 'cfg': {}, 'steps': steps})
     # the other side of the handshake: the READ loop is parked between raising the flag and sweeping the table while the
     # write loop takes a new request through all of writeRequest
     for body, kind in ((0, 'buf'), (3000, 'buf'), (3000, 'stream')):
